@@ -287,6 +287,21 @@ fn gen(rng: &mut Rng) -> String {
         2..=7 => 1 + rng.below(10) as usize,
         _ => 10 + rng.below(40) as usize,
     };
+    // template class: feature-specific text shapes that random letters practically never form
+    // (several digit/digit fractions in one run for FRAC, ligature chains, ...)
+    if rng.chance(1, 10) {
+        let t = *rng.pick(&[
+            "1/2 3/4", "12/34 5/678 9/0 x", "1/2", "a1/2b3/4c", "fi ffl 1/2 3/4 ff", "1/2 3/4 5/6 7/8 9/10 11/12",
+            "x 1/2", "1/2/3/4", "/1/ 2/ /3", "ffi fj ffl ft", "A\u{301}\u{300}V\u{327}A",
+        ]);
+        let bits: u64 = 0x3f | (1 << 16) | (1 << 22) | (1 << 11) | (rng.next() & 0xffff_0000);
+        let cps: Vec<String> = t.chars().map(|c| format!("{:x}", c as u32)).collect();
+        return format!(
+            "{}|{}|{}|{}|mask:{}|{}|{}|{}",
+            font, seed, if rng.chance(3, 4) { "latn" } else { script }, lang, bits, rng.below(2),
+            if rng.chance(1, 3) { "r" } else { "l" }, cps.join(",")
+        );
+    }
     let alpha = alphabet(if rng.chance(5, 6) { fscript } else { script });
     let cps: Vec<String> = (0..n)
         .map(|_| {
